@@ -21,6 +21,8 @@ def complex_actions():
         yield ('map_iter', failpos)
     for failpos in (1, 2):
         yield ('map_reiter', failpos)
+    for cancel in (True, False):
+        yield ('put_wait', cancel)
     for delays in ((0.0, 0.0), (0.0, T / 4), (2 * T, 0.0)):
         for failpos in (None, 0, 1, 2):
             yield ('amap', delays, failpos)
@@ -65,6 +67,9 @@ def concretise(seq, gaps):
         elif k == 'map_reiter':
             ev.append((g, ('map_reiter', (nxt, nxt + 1), a[1])))
             nxt += 2
+        elif k == 'put_wait':
+            ev.append((g, ('put_wait', nxt, a[1])))
+            nxt += 1
         elif k == 'amap':
             ev.append((g, ('amap', ((nxt, a[1][0]), (nxt + 1, a[1][1])), a[2])))
             nxt += 2
